@@ -50,6 +50,7 @@ class SVar:
         self.hist: frozenset = frozenset()  # provenance: (seq, op, dtype) of fp operations
         self.kind = 'variable'  # or 'dataarray'
         self.members: dict = {}  # coords / masks / data for data arrays
+        self.mag = None  # (lo, hi): log10 bounds of the non-zero magnitude in the stored unit (sa/magdomain.py)
 
     def __repr__(self):
         return f'SVar#{self.id}(term={T.show(self.term) if self.term is not None else "⊤:" + self.why}, unit={self.unit}, dtype={self.dtype})'
